@@ -446,17 +446,27 @@ def run_sequences(gkey, seq_ids, tier, acc):
                     check_model(rows, q["objs"], q["model"], (r, v), acc, dict(wit, value=enc(v)))
             if not any(r.persist for r in rows):
                 continue
+            prs_before_reopen = prs
             try:
                 prs = reopen(prs)
             except Exception as e:  # noqa
                 acc.violation("reopen:" + rows[0].id, "sequence group %s: save/re-open raised %s: %s" % (gkey, type(e).__name__, str(e)[:120]), {"mode": "sequence", "group": gkey, "seq": chunk[0], "tier": tier, "seed": env.seed(), "row": rows[0].id})
                 break
             acc.count("sequence_reopens")
+            keep_working = rd % 2 == 1  # odd rounds: the saved file is checked on a re-opened COPY, the caller goes on with the same
+            working = None              # Presentation object (save, edit, save again), so nothing computed for a save may outlive it
+            if keep_working:
+                working, prs = prs_before_reopen, prs
             for q in seqs:
                 s2 = prs.slides[q["si"]]
                 cache = {}
-                q["objs"] = {r.id: resolve(r.path, prs, s2, cache) for r in rows}
-                check_model(rows, q["objs"], q["model"], (rows[0], None), acc, {"mode": "sequence", "group": gkey, "seq": q["n"], "tier": tier, "seed": env.seed()}, after_reopen=True)
+                objs2 = {r.id: resolve(r.path, prs, s2, cache) for r in rows}
+                check_model(rows, objs2, q["model"], (rows[0], None), acc, {"mode": "sequence", "group": gkey, "seq": q["n"], "tier": tier, "seed": env.seed()}, after_reopen=True)
+                if not keep_working:
+                    q["objs"] = objs2
+            if keep_working:
+                prs = working
+                acc.count("sequence_saves_continued_on_the_same_presentation")
 
 
 def run_seq_unit(unit, tier, acc):
